@@ -157,9 +157,14 @@ def cases(ctx):
         k = rng.choice([1, 2, 3, 5])
         ops = []
         for _j in range(rng.choice([40, 80, 120]) if ctx.quick else rng.choice([100, 200, 400])):
-            kind = rng.choice(["create_keep", "recv_keep", "create_measure", "recv_measure", "create_rsp", "recv_rsp", "recv_keep_info"])
+            kind = rng.choice(["create_keep", "recv_keep", "create_measure", "recv_measure", "create_rsp", "recv_rsp", "recv_keep_info",
+                               "create_context", "recv_context", "create_keep_fid", "recv_keep_fid", "array_undefine", "create_keep_info"])
             ops.append([kind, rng.choice([1, 1, 2, 3]) if "measure" in kind or "rsp" == kind[-3:] and kind.startswith("create") else rng.choice([1, 2])])
-        yield {"kind": "epr-history", "k": k, "ops": ops, "hardware": rng.choice(["generic", "generic", "nv"])}
+        hw = rng.choice(["generic", "generic", "nv"])
+        if hw == "nv":
+            # (on NV the context / fidelity-constrained forms are the subject of C09's and C10's known findings)
+            ops = [o for o in ops if o[0] not in ("create_context", "recv_context", "create_keep_fid", "recv_keep_fid")]
+        yield {"kind": "epr-history", "k": k, "ops": ops, "hardware": hw}
     for _ in range(ctx.n(40, 2000)):
         depth = rng.choice([5, 6, 7, 8, 9, 10])
         yield {"kind": "deep", "depth": depth, "prog": deep_program(rng, depth), "script": [rng.randrange(2) for _ in range(16)]}
@@ -199,14 +204,26 @@ def _epr_history(ctx, case):
     from vf.harness.link import LinkModel, PlannedRequest
     from vf.harness.pipeline import Pipe
     plan = []
-    for kind, n in case["ops"]:
+    for j, (kind, n) in enumerate(case["ops"]):
+        if kind == "array_undefine":
+            continue
         role = "create" if kind.startswith("create") else "recv"
         tp = "M" if "measure" in kind else ("R" if "rsp" in kind else "K")
+        if kind.endswith("_fid"):
+            # fidelity-constrained keep: the first attempt of every third such request is rejected (goodness = generation
+            # time too high), so the retry loop and its clean-up code really run
+            if j % 3 == 0:
+                plan.append(PlannedRequest(role, "K", n, fields=(lambda k, name: 60000 if name == "goodness" else None)))
+            plan.append(PlannedRequest(role, "K", n, fields=(lambda k, name: 100 if name == "goodness" else None)))
+            continue
         plan.append(PlannedRequest(role, tp, 1 if kind == "recv_rsp" else n))
     es = EPRSocket("bob")
     link = LinkModel(plan, partners=False)
     hw = case["hardware"]
-    pipe = Pipe(epr_sockets=[es], link=link, max_qubits=5 if hw == "generic" else 4, hardware=hw, script=[0, 1] * 64, step_limit=2000000)
+    # the handles of a context block stay active in the SDK (C09's known finding epr-context:placeholder-qubits-stay-active), so
+    # every context operation uses up virtual ids for good: the unit module is sized for them (registers are this check's subject)
+    spare = sum(n for kind, n in case["ops"] if kind.endswith("_context"))
+    pipe = Pipe(epr_sockets=[es], link=link, max_qubits=(5 if hw == "generic" else 4) + spare, hardware=hw, script=[0, 1] * 64, step_limit=2000000)
     conn = pipe.conn
     mm = conn.builder._mem_mgr
     done = 0
@@ -232,6 +249,23 @@ def _epr_history(ctx, case):
                 elif kind == "recv_rsp":
                     for q in es.recv_rsp(1):
                         q.measure()
+                elif kind == "create_keep_info":
+                    for q in es.create_keep_with_info(n)[0]:
+                        q.measure()
+                elif kind in ("create_context", "recv_context"):
+                    cm = (es.create_context if kind == "create_context" else es.recv_context)(number=n, sequential=True)
+                    with cm as (q, pair):
+                        q.measure()
+                    ctx.count("epr_context_operations")
+                elif kind in ("create_keep_fid", "recv_keep_fid"):
+                    fn = es.create_keep if kind == "create_keep_fid" else es.recv_keep
+                    for q in fn(n, min_fidelity_all_at_end=80, max_tries=3):
+                        q.measure()
+                    ctx.count("epr_fidelity_constrained_operations")
+                elif kind == "array_undefine":
+                    arr = conn.new_array(n + 1, init_values=[7] * (n + 1))
+                    arr.undefine()
+                    ctx.count("array_undefine_operations")
             except (AssertionError, ValueError) as e:
                 if hw == "nv":
                     ctx.count("sdk_build_time_refusals_nv")
